@@ -39,6 +39,8 @@ Record fcfg := mkFcfg {
 
 (* main.go hands ONE value, c.MaxBlobSize, to all three (pinned by Gen/Front.v, Bridge_Front.v) *)
 Definition wired (zstd : bool) (max : Z) : fcfg := mkFcfg (mkCfg zstd max maxInt64 false) max max.
+(* the same with a proxy backend and max_proxy_blob_size *)
+Definition wired_proxy (zstd : bool) (max maxproxy : Z) : fcfg := mkFcfg (mkCfg zstd max maxproxy true) max max.
 
 (* the literal texts main.go is expected to pass (compared with Gen by Bridge_Front) *)
 Definition wiring_expected : list (string * string) :=
@@ -543,6 +545,16 @@ Definition inline_read (c : fcfg) (d : dstate) (digest : option (string * Z)) : 
   end.
 
 (* FindMissingBlobs *)
+(* the request's digests go to the disk layer AS THEY ARE: same order, duplicates and all; [bs] is the
+   backend's answer column (what cache.Proxy.Contains says for each digest, used where it is asked) *)
+Definition find_missing_b (c : fcfg) (d : dstate) (ds : list (string * Z)) (bs : list bhas)
+  : dstate * status * list (string * Z) :=
+  if negb (forallb (fun x => validate_hash (fst x) (snd x)) ds) then (d, bad, []) else
+  match exec (fc_disk c) d (RFindMissing ds bs false) with
+  | (d', Some (Missing l)) => (d', SOk, l)
+  | (d', _) => (d', SErr EInternal, [])
+  end.
+
 Definition find_missing (c : fcfg) (d : dstate) (ds : list (string * Z)) : dstate * status * list (string * Z) :=
   if negb (forallb (fun x => validate_hash (fst x) (snd x)) ds) then (d, bad, []) else
   match exec (fc_disk c) d (RFindMissing ds [] false) with
@@ -574,7 +586,8 @@ Inductive fop :=
 | FInit (max_size hard_limit : Z)   (* the case runs on a cache of this size / max_size_hard_limit (from empty) *)
 | FDrain                            (* the background remover deletes everything queued for deletion *)
 | FStats                            (* Stats() and the deletion backlog *)
-| FGetAR (hash : string).           (* GetActionResult of an entry that references no blobs: one Get under ac/ *)   (* the server is stopped and started again on the SAME directory with this --storage_mode *)
+| FGetAR (hash : string)
+| FFindMissingB (ds : list (string * Z)) (bs : list bhas).   (* FindMissingBlobs with the backend's answers *)           (* GetActionResult of an entry that references no blobs: one Get under ac/ *)   (* the server is stopped and started again on the SAME directory with this --storage_mode *)
 
 Inductive fobs :=
 | OSt (s : status)
@@ -613,6 +626,8 @@ Definition run_op (c : fcfg) (d : dstate) (o : fop) : dstate * fobs :=
                 | (d', GMiss) => (d', OSt (SErr ENotFound))
                 | (d', GErr e) => (d', OSt (SErr (grpc_code e EInternal)))
                 end
+  | FFindMissingB ds bs => let '(d', s, l) := find_missing_b c d ds bs in
+                           (d', match s with SOk => OMiss l | _ => OSt s end)
   | FStats => (d, OStats (cur (lru d)) (res (lru d)) (Z.of_nat (List.length (order (lru d)))) (qbytes (lru d)))
   end.
 
